@@ -27,7 +27,7 @@ BUDGET = {
     "quick": {"cases": 12000, "seconds": 90, "shards": 8},
     "thorough": {"cases": 300000, "seconds": 900, "shards": 16},
 }
-REQUIRED_OBS = ["arcs_checked", "pdf_checked", "k>n-1", "tied_kth_distance", "eliminate_positive", "eliminate_nonpositive", "all_equal_density",
+REQUIRED_OBS = ["instance_history_cases", "arcs_checked", "pdf_checked", "k>n-1", "tied_kth_distance", "eliminate_positive", "eliminate_nonpositive", "all_equal_density",
                 "pre_computed_cases", "displacing_insertion", "bound_fallback_to_1"]
 MIN_NONTRIVIAL = 150
 
@@ -44,7 +44,7 @@ def generate(rng, tier, idx):
     elif r < 0.1:
         X = X * 1e-7
     k = int(rng.choice([1, 2, 3, max(1, n - 2), max(1, n - 1), n, n + 2, int(rng.integers(1, n + 3))]))
-    case = {"X": X.tolist(), "k": k, "metric": name, "gclass": gc, "pre": None,
+    case = {"X": X.tolist(), "k": k, "metric": name, "gclass": gc, "pre": None, "history": bool(rng.random() < 0.2),
             "h": [float(rng.choice([0.5, 1.0, 10.0, 999.0, 2000.0])), 0.0, -1.0]}
     if rng.random() < 0.25:
         N = n + int(rng.integers(0, 5))
@@ -74,6 +74,15 @@ def check(case):
         W = np.array([[float(fn(X[i].copy(), X[j].copy())) if i != j else 0.0 for j in range(n)] for i in range(n)])
     if not np.all(np.isfinite(W)) or np.any(W < 0):
         return res.reject("weights-not-finite-nonnegative")
+    history = bool(case.get("history"))
+    if history:
+        # the models call create_arcs / destroy_arcs repeatedly on ONE subgraph: an earlier creation with the same k on LARGER
+        # distances must not leak into this one (the density bound, which the code never resets, is not judged in this variant)
+        big = np.ones((max(n, int(np.max(pre["I"])) + 1 if pre else n),) * 2) * (float(W.max()) * 3.0 + 1.0)
+        np.fill_diagonal(big, 0.0)
+        safe_call(sg.create_arcs, k, fn, True, big)
+        safe_call(sg.destroy_arcs)
+        res.see("instance_history_cases")
     call = safe_call(sg.create_arcs, k, fn, bool(pre), D)
     if not call.ok:
         res.violate("arcs", f"C12/exception/create_arcs/{type(call.exc).__name__}", f"create_arcs(k={k}) on n={n} raised at {call.where}: {str(call.exc)[:200]}")
@@ -113,6 +122,10 @@ def check(case):
         res.see("displacing_insertion")
     if maxd.shape != (k,) or not np.array_equal(maxd, true_rank_max):
         res.violate("arcs", "C12/per-rank-maxima", f"returned per-rank maxima {maxd.tolist()} != true maxima {true_rank_max.tolist()}")
+        return res
+    if history:
+        res.nontrivial = n >= 5 and 2 <= k <= n - 2 and displaced
+        res.cell("history", case["gclass"])
         return res
     bound = float(true_rank_max.max()) if k >= 1 else 0.0
     if bound < 0.00001:
